@@ -89,9 +89,9 @@ class Plan:
         self.prop = prop
         self.bin = binname
         self.native_shards = 12
-        self.miri_shards = 8
+        self.miri_shards = 12
         self.miri_random = 40
-        self.miri_budget_s = 55
+        self.miri_budget_s = 50
         self.miri_timeout = 170
         self.native_timeout = 420
         self.valgrind = False
